@@ -6,6 +6,7 @@ use std::io::BufRead;
 
 #[macro_use] mod gen_tables;
 mod util;
+mod c02;
 mod c03;
 mod c20;
 
@@ -13,6 +14,7 @@ fn main() {
     std::panic::set_hook(Box::new(|_| {}));
     let prop = std::env::args().nth(1).unwrap_or_default();
     let f: fn(&Value) -> Value = match prop.as_str() {
+        "C02" => c02::run_case,
         "C03" => c03::run_case,
         "C20" => c20::run_case,
         _ => { eprintln!("usage: verif_harness <property id>"); std::process::exit(2) }
